@@ -11,6 +11,14 @@ def run(tier, seed):
     n = common.validate_api(chk, tr, key_of=lambda e: "honest:" + e.get("ev", ""))
     chk.leg("trace validation (Layer A judge)", events=n,
             grid="seeds x messages {0,1,135,136,137,4096,random} x |ctx| {0,1,32,255} x 4 modes x sk {generated, round-tripped, cloned} x pk {generated, round-tripped, derived, derived-from-round-tripped}")
+    # rare keys (t leaves [0,q) before the final reduction): the public key derived from the private key must equal
+    # the generated one on every such seed found by search (judged by Layer F)
+    import os
+    from concurrent.futures import ThreadPoolExecutor
+    sw = os.path.join(chk.workdir, "sw")
+    with ThreadPoolExecutor(max_workers=3) as ex:
+        list(ex.map(lambda s: vlib.drive(bindir, "sweeps", sets=s, seed=seed + 2, nkeys=1000, nedge=60000 if tier == "quick" else 1500000, nedgefull=1, nsamplers=0, out=sw, timeout=7200), (44, 65, 87)))
+    common.validate_f(chk, {s: os.path.join(sw, "sweeps_%d.ndjson" % s) for s in (44, 65, 87)}, nproc=6, chunks_per_set=2, key_of=lambda m: "rare-key:" + m["ev"])
     common.mc_leg(chk, "MC_API")
     common.mc_leg(chk, "MC_ToySign", tier=tier)
     # the whole specification (hashing, samplers, codecs, rejection loop) on ring degree 8: staged = literal forms, Verify(Sign) = TRUE
